@@ -135,11 +135,41 @@ def sprinkle(rng, roots: list[Node]) -> dict[int, list[Node]]:
     return inject
 
 
+def qualified_names_record(rng) -> Node:
+    """one record whose groups reuse the same data names (KEY-DATA OF HDR / KEY-DATA OF BODY), redefined in each group: legal COBOL,
+    the names being qualified by their group.  Only the structure of the schema is looked at (the layout of such records is
+    finding D2 of C01)."""
+    import copy
+
+    names = rng.sample(["KEY-DATA", "KEY-NUM", "AMT", "CODE", "FLAG", "PARTS"], rng.randint(2, 4))
+    items: list[Node] = []
+    for nm in names:
+        w = rng.randint(2, 8)
+        items.append(Node(10, nm, pic=f"X({w})", width=w))
+        if rng.random() < 0.6:
+            if rng.random() < 0.5:
+                items.append(Node(10, nm + "-R", pic=f"9({w})", width=w, redefines=nm))
+            else:
+                g = Node(10, nm + "-G", redefines=nm, children=[Node(15, nm + "-A", pic="X", width=1), Node(15, nm + "-B", pic=f"X({w - 1})", width=w - 1)])
+                items.append(g)
+    groups = []
+    for k in range(rng.randint(2, 3)):
+        g = Node(5, f"GRP-{k}", children=copy.deepcopy(items if rng.random() < 0.7 else items[: max(1, len(items) // 2)]))
+        if rng.random() < 0.3:
+            g.occurs = rng.randint(2, 3)
+        groups.append(g)
+    root = Node(1, "QUAL-REC", children=groups)
+    number_fillers(root)
+    return root
+
+
 def explore(ck: Check, n: int) -> None:
     rng = ck.rng
     reqs: list[str] = []
     impl: list[str] = []
     inputs: list[Any] = []
+    for _ in range(max(10, n // 10)):
+        one_copybook(ck, [qualified_names_record(rng)], {}, Style(), [], [], [], "names-qualified-by-group")
     for i in range(n):
         roots = []
         for _ in range(rng.choice([1, 1, 2, 3])):
